@@ -1,15 +1,19 @@
 #!/bin/bash
 # tools/sweep_refactors.sh: every behaviour-preserving refactoring under refactors/ is applied to a scratch
 # copy of /repo's tracked files; it must build, pass the suite, and leave every check silent.
+# (PAR refactorings at a time, each with a private copy of the analyser binary.)
 cd /verif; . ./env.sh
 out=refactors/RESULTS.md
+work=/tmp/sweepref.$$; mkdir -p $work; cp bin/rsa $work/rsa
+ls -d refactors/${ONLY:-C*}/ | xargs -P ${PAR:-4} -I{} sh -c "RSA=$work/rsa GOMAXPROCS=4 tools/try_refactor.sh {} 2>&1 | tail -1 > $work/\$(basename {}).res"
 echo "| refactoring | builds / suite | checks that raise an alarm (rules) |" > $out
 echo "|---|---|---|" >> $out
 for d in refactors/${ONLY:-C*}/; do
   id=$(basename $d)
-  res=$(tools/try_refactor.sh $d 2>&1 | tail -1)
+  res=$(cat $work/$id.res)
   b=$(echo "$res" | sed -E 's/.*: (build=[a-zA-Z]+ suite=[a-zA-Z]+).*/\1/')
   a=$(echo "$res" | sed -E 's/.*alarms: //')
   echo "| $id | $b | $a |" >> $out
 done
+rm -rf $work
 cat $out
